@@ -229,12 +229,18 @@ func tornImages(rng *hlib.Rng, root string, id int, dir string, n int, count fun
 			}
 			buf := fr[:int64(whole)*w.frame()+int64(part)]
 			f.WriteAt(buf, w.validEnd())
-			if w.validEnd() == w.size {
-				how = fmt.Sprintf("log-of-%d-frames-followed-by-%d-whole-frames-without-commit-mark-and-%d-of-%d-bytes-of-one-more", w.valid, whole, part, w.frame())
+			wrote := fmt.Sprintf("%d-whole-frames-without-commit-mark-and-%d-of-%d-bytes-of-one-more", whole, part, w.frame())
+			switch rest := w.size - w.validEnd(); {
+			case rest == 0:
+				how = fmt.Sprintf("log-of-%d-frames-followed-by-%s", w.valid, wrote)
 				count("torn:appended-at-end-of-log")
-			} else {
+			case rest < w.frame():
+				// the kill itself left a partly written frame (pwrite cases): another torn tail at the same place
+				how = fmt.Sprintf("log-of-%d-frames-and-%d-bytes-of-a-partly-written-one-rewritten-from-there-by-%s", w.valid, rest, wrote)
+				count("torn:rewritten-over-a-partly-written-frame")
+			default:
 				// the log was restarted after a checkpoint: new frames overwrite old ones in place
-				how = fmt.Sprintf("restarted-log-with-%d-valid-frames-overwritten-in-place-by-%d-whole-frames-without-commit-mark-and-%d-of-%d-bytes-of-one-more", w.valid, whole, part, w.frame())
+				how = fmt.Sprintf("restarted-log-with-%d-valid-frames-overwritten-in-place-by-%s", w.valid, wrote)
 				count("torn:overwritten-in-restarted-log")
 			}
 		}
